@@ -507,10 +507,10 @@ def obligations(tier):
                 if not T and cid not in (2, 6) and api != "coll":
                     continue  # quick: every code through the collection entry point, codes 2 and 6 through all six
                 obs.append(Ob(f"translation_api/{style}/{api}/code{cid}", __name__, "mk_translation_api", {"code_id": cid, "api": api, "style": style}, timeout=900,
-                              twins=("end", "stop") if (cid == 2 and api == "seq") else ("end",), group="api"))
+                              twins=("end", "stop") if (cid == 2 and api == "seq") else ("end",), group="api", grade="realised-input"))
     for style in ("old", "new"):
         for api in (("seq", "coll", "aln") if T else ("coll",)):
-            obs.append(Ob(f"translation_api/{style}/{api}/code2/include_stop", __name__, "mk_translation_api", {"code_id": 2, "api": api, "style": style, "include_stop": True}, timeout=1800, twins=("end",), group="api"))
+            obs.append(Ob(f"translation_api/{style}/{api}/code2/include_stop", __name__, "mk_translation_api", {"code_id": 2, "api": api, "style": style, "include_stop": True}, timeout=1800, twins=("end",), group="api", grade="realised-input"))
     obs.append(Ob("translate_index_width", __name__, "mk_index_width", {}, kind="direct", timeout=600, group="frames"))
     for n in (3, 6):
         obs.append(Ob(f"kmer_kernel/n{n}", __name__, "mk_kmer_kernel", {"n": n}, timeout=900, group="kernel"))
